@@ -1063,8 +1063,8 @@ pub fn run_c40(ctx: &mut Ctx) {
     let m = ctx.cases(2_400, 120_000);
     ctx.search("simulate", m, || sim_case(20), check_sim);
     for (class, div) in [
-        ("deposit_compared", 2),
-        ("withdraw_compared", 10),
+        ("deposit_compared", 3),
+        ("withdraw_compared", 14),
         ("swap_compared", 6),
         ("increase_compared", 12),
         ("decrease_compared", 80),
